@@ -65,7 +65,11 @@ func CalculateCacheTTL(msg *dns.Msg, respType ResponseType) time.Duration {
 		if ttl := getTTL(rr); ttl < minTTL {
 			minTTL = ttl
 		}
-		if isNegative {
+		// An SOA in the authority section is a negative answer's SOA even
+		// when the message as a whole classifies as a success: an alias
+		// whose target has no data carries the CNAME in the answer section
+		// and the target zone's SOA here.
+		if isNegative || rr.Header().Rrtype == dns.TypeSOA {
 			if soa, ok := rr.(*dns.SOA); ok {
 				if ttl := time.Duration(soa.Minttl) * time.Second; ttl < minTTL {
 					minTTL = ttl
